@@ -136,6 +136,9 @@ func (s *Sys) deliverRecv(dst *world.Chain, signer world.Account, msgs []sdk.Msg
 					if want := s.registeredCounterpartyAddress(dst, signer, p.SrcChain); a.Relayer != want {
 						add("C06", "ack-relayer-not-registered-counterparty-address", fmt.Sprintf("recv %s by %s: ack.Relayer=%q want %q", what, signer.Name, a.Relayer, want))
 					}
+					if a.Code == 0 && (strings.Contains(t.Kind, "+callrevert") || strings.Contains(t.Kind, "+hookfail") || strings.Contains(t.Kind, "+agentbad")) {
+						add("C05", "failed-callback-acknowledged-as-success", fmt.Sprintf("recv %s (%s) on %s: the packet's call fails by construction (reverting call / failing post-transaction hook / nested send to an unknown chain) but the stored acknowledgement reports success", t.ID, t.Kind, short[dst.Name]))
+					}
 					if a.Code == 0 {
 						class += " exec-ok"
 					} else {
@@ -308,7 +311,7 @@ func (s *Sys) deliverAck(src *world.Chain, signer world.Account, msgs []sdk.Msg,
 		} else {
 			class += " delivered"
 		}
-		if !t.Nested && senderPost-senderPre != wantRefund {
+		if !t.Nested && !strings.Contains(t.Kind, "+ctor") && senderPost-senderPre != wantRefund {
 			add("C03", "refund-amount-wrong", fmt.Sprintf("ack %s (%s) code %d: sender holdings changed by %d, want %d", what, t.Kind, a.Code, senderPost-senderPre, wantRefund))
 		}
 	}
